@@ -339,7 +339,7 @@ struct Exec {
       if constexpr (FAM == RU && VINE) {
         // C06-KF2 also covers removals: erase_empty_row is called with the position while the maps are keyed by row identifier
         bool ids_are_positions = true; for (int k = 0; k < F.size(); ++k) if (rowids[k] != k) ids_are_positions = false;
-        if (!ids_are_positions) { r.count("probe.ru_remove_with_custom_ids"); if (r.kf("C06-KF2")) { obs.tainted = true; r.skipped(); return; } }
+        if (!ids_are_positions) r.count("probe.ru_remove_with_custom_ids");
       }
       if constexpr (FAM == CHAIN && VINE) {
         if (had_swap) r.count("probe.chain_remove_last_after_swap");
@@ -420,9 +420,7 @@ struct Exec {
           if constexpr (FAM != CHAIN) {
             if constexpr (IDX == 2) ok = false;
             else {
-              bool ids_are_positions = true; for (int k = 0; k < n; ++k) if (rowids[k] != k) ids_are_positions = false;
-              if (!ids_are_positions) ok = false;
-              else if (ok) { bool ip = mp->is_zero_column(ci), jp = mp->is_zero_column(cj); if (!(ip && jp)) ok = !mp->is_zero_entry(ci, (unsigned)(i + 1), false); }
+              if (ok) { bool ip = mp->is_zero_column(ci), jp = mp->is_zero_column(cj); if (!(ip && jp)) ok = !mp->is_zero_entry(ci, (unsigned)(i + 1), false); }
             }
           } else { if (ok) ok = !mp->is_zero_entry(cj, (unsigned)F.cells[i].id); }
           if (!ok) { r.skipped(); return false; }
@@ -464,9 +462,9 @@ struct Exec {
         std::vector<int> adm; for (int i = 0; i + 1 < n; ++i) if (!F.is_face(i, i + 1)) adm.push_back(i);
         if (adm.empty()) { r.skipped(); return true; }
         if constexpr (FAM == RU) {
-          // known finding C06-KF2: RU vine swaps mix row identifiers and positions (rows of U, pivot table) when they differ
+          // (fixed finding C06-KF2: RU vine swaps mixed row identifiers and positions (rows of U, pivot table) when they differ)
           bool ids_are_positions = true; for (int k = 0; k < n; ++k) if (rowids[k] != k) ids_are_positions = false;
-          if (!ids_are_positions) { r.count("probe.ru_swap_with_custom_ids"); if (r.kf("C06-KF2")) { obs.tainted = true; r.skipped(); return true; } }
+          if (!ids_are_positions) r.count("probe.ru_swap_with_custom_ids");
         }
         if constexpr (FAM == RU && !BARCODE) {
           // (fixed finding C06-KF12: without stored barcode the RU matrix threw from its pivot table during swaps)
@@ -482,7 +480,7 @@ struct Exec {
         if (cand.empty()) { r.skipped(); return true; }
         if constexpr (FAM == RU) {
           bool ids_are_positions = true; for (int q = 0; q < n; ++q) if (rowids[q] != q) ids_are_positions = false;
-          if (!ids_are_positions && r.kf("C06-KF2")) { obs.tainted = true; r.skipped(); return true; }
+          if (!ids_are_positions) r.count("probe.ru_remove_maximal_with_custom_ids");
         }
         int k = cand[op.arg(0) % cand.size()];
         if (op.arg(1) % 2 == 0 && last_swap >= 0 && last_swap + 1 < n && !F.has_coface(last_swap + 1)) k = last_swap + 1;  // right after a swap involving it
